@@ -95,7 +95,7 @@ fn specs() -> Vec<CheckSpec> {
         mk: mk_c01,
         level: "exploration",
         rule: "HIST after every landed transaction that touches a pool: (1) token conservation per mint, (2) a full drain replayed on a fork through the real handlers and the real token program - every position (random order) update-fees, decrease all, collect fees, and collect-protocol-fees at a random place; the violation is a drain instruction failing for lack of funds, (3) vault >= protocol owed + stored fees owed + exact withdrawable amounts, (4) an injected CPI failure must fail the transaction and leave the ledger byte-identical; sampled forks where a single party swaps back and forth alone / adds and removes liquidity alone must not end ahead; a case is one (instruction kind, #positions, zero liquidity, protocol fees owed, spacing, price at bound) tuple at which the drain ran",
-        quick_runs: 1500,
+        quick_runs: 2400,
         thorough_secs: 1200,
         assumptions: COMMON_ASSUMPTIONS,
         extra: None,
@@ -107,7 +107,7 @@ fn specs() -> Vec<CheckSpec> {
         mk: mk_c03,
         level: "exploration",
         rule: "HIST every swap / swap_v2 / two-hop (v1, v2) that lands (planned on a view that went stale while in flight) is checked from the trader's balance deltas and the pool account; one third are replayed on forks with threshold = realised, realised-1, realised+1; a case is one (instruction, direction, mode, explicit limit, stopped at limit, fully filled, threshold class, tick spacing) tuple of a successful swap",
-        quick_runs: 3600,
+        quick_runs: 6000,
         thorough_secs: 1200,
         assumptions: COMMON_ASSUMPTIONS,
         extra: None,
@@ -119,7 +119,7 @@ fn specs() -> Vec<CheckSpec> {
         mk: mk_c06,
         level: "exploration",
         rule: "HIST every landed swap's per-step trace (hook H1) must chain from the pool's pre-state to its post-state and is re-computed step by step with big integers (curve amounts, fee, protocol share, LP growth increment), then reconciled with account deltas, vault balances and the Traded event; protocol-fee collections must pay exactly the owed amounts and zero them; a case is one (instruction, direction, mode, #steps, #crossed ticks, zero-liquidity step, ended at limit, explicit limit, spacing, fee class, protocol fee on) tuple",
-        quick_runs: 2400,
+        quick_runs: 4800,
         thorough_secs: 1200,
         assumptions: COMMON_ASSUMPTIONS,
         extra: None,
@@ -131,7 +131,7 @@ fn specs() -> Vec<CheckSpec> {
         mk: mk_c07,
         level: "exploration",
         rule: "HIST an exact rational shadow ledger distributes the LP fee of every traced swap step with liquidity over the positions in range at that step (model tick moving with the crossings), pro rata; whenever a position's fee state changes the credited delta c is compared with the exact entitlement e since the previous credit: c <= floor(e) always, and c >= floor(e) - (steps*L/2^64 + 2) unless the credit would reach 2^64 (documented overflow carve-out); accumulators are fast-forwarded to just below 2^128 in a quarter of the runs; a case is one (instruction, token, earned-anything, #steps, liquidity magnitude) tuple at a credit event",
-        quick_runs: 2400,
+        quick_runs: 4800,
         thorough_secs: 1200,
         assumptions: COMMON_ASSUMPTIONS,
         extra: None,
@@ -143,7 +143,7 @@ fn specs() -> Vec<CheckSpec> {
         mk: mk_c08,
         level: "exploration",
         rule: "HIST every landed increase/decrease (v1, v2), by-token-amounts and reposition is checked from balance deltas against exact big-integer amounts (up on deposit, down on withdrawal, one-sided outside the range incl. price on a bound and the shifted state); success implies the caller's max/min was respected; a third are replayed on forks with token_max = cost / cost-1 and token_min = proceeds / proceeds+1; a quarter of the increases are followed on a fork by removing the same liquidity at the unchanged price; by-token-amounts must yield the largest liquidity that fits; a case is one (instruction, price region relative to the range, spacing, liquidity magnitude, zero-amount sides) tuple",
-        quick_runs: 3000,
+        quick_runs: 6000,
         thorough_secs: 1200,
         assumptions: COMMON_ASSUMPTIONS,
         extra: None,
@@ -155,7 +155,7 @@ fn specs() -> Vec<CheckSpec> {
         mk: mk_c17,
         level: "exploration",
         rule: "three pools over three mints (all four direction combinations arise), a router actor quoting on a stale view, plus LPs/traders/keeper under the same faults; every landed two-hop (v1, v2; successful or not) is replayed on a fork of its pre-state as its two single swaps with the second leg's input equal to the first leg's output (exact-out: intermediate amount learned on a scratch fork); success <=> both legs succeed with matching intermediate amount, distinct pools, shared mint and threshold met; on success all pool-side bytes (pools, tick arrays, oracles, vaults) and the trader's balances must be equal; a case is one (instruction, mode, directions, outcome, singles outcome, limits) tuple",
-        quick_runs: 2400,
+        quick_runs: 4800,
         thorough_secs: 1200,
         assumptions: COMMON_ASSUMPTIONS,
         extra: None,
@@ -167,7 +167,7 @@ fn specs() -> Vec<CheckSpec> {
         mk: mk_c10,
         level: "exploration",
         rule: "HIST for every landed swap (v1, v2, two-hop legs) the ticks the trace reports as crossed must be exactly the initialized ticks (bounds of positions with liquidity) between the current tick before and after, in price order, each once, with the liquidity after each crossing implied by the positions; half of the single swaps are replayed on forks under packaging faults: tick arrays permuted, duplicated/omitted (same result or failure), passed as v2 supplemental arrays with irrelevant arrays in the main slots, merely-named arrays created empty (fixed or dynamic), an array of another pool substituted (must fail); a case is one (instruction, direction, #crossed, shifted start, edge slot crossed, spacing, zero liquidity) tuple",
-        quick_runs: 2400,
+        quick_runs: 4000,
         thorough_secs: 1200,
         assumptions: COMMON_ASSUMPTIONS,
         extra: None,
@@ -179,7 +179,7 @@ fn specs() -> Vec<CheckSpec> {
         mk: mk_c12,
         level: "exploration",
         rule: "HIST every increase/decrease (v1, v2) that lands - successful or not, including under an injected CPI failure - is re-executed on a fork of its pre-state through the Anchor implementation still in the tree (try_accounts -> Context -> handler -> exit) and through the live Pinocchio routing; success <=> success, equal program error codes (>= 6000), and on success every account byte and lamport (pool, position, both tick arrays incl. dynamic resize and rent movement, vaults, user accounts), the CPI sequence and the emitted event must be identical; every whirlpool instruction is additionally executed through both the real entrypoint and the public handlers and compared; a case is one (instruction, live outcome, twin outcome, price region, #dynamic arrays, spacing) tuple",
-        quick_runs: 2400,
+        quick_runs: 4000,
         thorough_secs: 1200,
         assumptions: COMMON_ASSUMPTIONS,
         extra: None,
@@ -191,7 +191,7 @@ fn specs() -> Vec<CheckSpec> {
         mk: mk_c13,
         level: "exploration",
         rule: "HIST (1) after every landed instruction each touched dynamic tick array is walked from raw bytes (flag byte 0/1, 112 more bytes iff 1, bitmap bit i <=> slot i initialised, walk ends exactly at data_len = 148 + 112*popcount, rent exempt), Anchor's dynamic accessors (get_tick, get_next_init_tick_index both directions, off-spacing ticks) are compared with Anchor's fixed accessors on the decoded content and with the raw bytes for all 88 slots, and rent must only move between the position and its arrays; (2) twin runs: every seed is run three times with fixed / dynamic / mixed arrays and every transaction outcome plus the observable state after every transaction (token accounts, pool and position bytes, decoded tick contents) must be equal; a case is one (instruction, created/grown/shrunk/rewritten, #initialised, boundary slot) tuple or one twin comparison",
-        quick_runs: 800,
+        quick_runs: 1200,
         thorough_secs: 1200,
         assumptions: COMMON_ASSUMPTIONS,
         extra: Some(mon::c13::run_twins),
@@ -203,7 +203,7 @@ fn specs() -> Vec<CheckSpec> {
         mk: mk_c11,
         level: "exploration",
         rule: "core histories plus a reward authority (initialise 1-3 rewards v1/v2, fund or under-fund the vaults, change emission rates incl. 0, 2^64*10^9, 2^100 and near-u128::MAX, authority hand-overs) and LPs collecting rewards, under a simulated clock with stall / jump (seconds to decades) / back-step faults; an exact rational shadow ledger accrues emissions x elapsed seconds over the positions in range between consecutive accrual points (old rate at a rate change); every credit c obeys c <= floor(e) and c >= floor(e) - (intervals*L/2^64 + 2) unless a documented carve-out applies; time-reading instructions with a clock earlier than the last update must fail; collects pay min(owed, vault); emission changes need a day of emissions in the vault (both directions); a case is one (instruction, reward index, initialised, earned, #intervals, carve-out) tuple",
-        quick_runs: 3000,
+        quick_runs: 6000,
         thorough_secs: 1200,
         assumptions: COMMON_ASSUMPTIONS,
         extra: None,
@@ -215,7 +215,7 @@ fn specs() -> Vec<CheckSpec> {
         mk: mk_c14,
         level: "exploration",
         rule: "pools created from adaptive fee tiers with constants drawn over the whole valid region (boundary biased: control factor 0 / 99999, max accumulator 0 / u32 limit, group size = every divisor of the spacing, decay = filter+1 .. 3600), permissioned tiers with a trade-enable time; LPs/traders/keeper under the core faults plus clock stall / jump (1 s, 59-61 s, 3599-3601 s, days, decades) / back-step and same-second bursts; a naive group-by-group model written from the documentation (no skip optimisation) gives the reference after the elapsed-time class and the rate of every tick group; each traced step must charge the model's rate on every group its price interval touches, accumulator <= max, static <= rate <= 100000, control factor 0 => static rate; after the swap the stored reference, accumulator (group where the swap ended or adjacent) and major-swap timestamp (1e-9 tolerance band) must follow the rules; swaps before the trade-enable time must fail and only those; a case is one (instruction, direction, elapsed-time class, control factor 0, #steps, skip used, saturated) tuple",
-        quick_runs: 2400,
+        quick_runs: 4000,
         thorough_secs: 1200,
         assumptions: COMMON_ASSUMPTIONS,
         extra: None,
@@ -227,7 +227,7 @@ fn specs() -> Vec<CheckSpec> {
         mk: mk_c16,
         level: "exploration",
         rule: "pools over Token-2022 mints with TransferFeeConfig (basis points 0/1/30/100/500/5000/9999/10000, maximum fee 0/10/1e6/1e12/u64::MAX, mixed with fee-less Token-2022 and plain SPL mints), tiny epochs so that the fee schedule switches while a mint-authority actor issues SetTransferFee; the real Token-2022 processor moves the tokens and the fee actually withheld is read from the destination account's withheld delta; for every landed swap_v2 / two_hop_swap_v2 / increase_v2 / decrease_v2 / by-token-amounts: included = excluded + fee with the SPL fee of the sent amount, the vault receives at least the curve amount (trace / exact oracle), the amount requested from the user is the smallest whose fee-reduced value covers the need and never above the stated maximum, the vault sends exactly the curve amount and thresholds / token minima are compared with what the user receives, events (Traded; Pinocchio liquidity events via hook H2) report the amounts moved; a case is one (instruction, direction, mode, fee class of each mint, partial fill) tuple",
-        quick_runs: 3600,
+        quick_runs: 6000,
         thorough_secs: 1200,
         assumptions: COMMON_ASSUMPTIONS,
         extra: None,
@@ -239,7 +239,7 @@ fn specs() -> Vec<CheckSpec> {
         mk: mk_c18,
         level: "exploration",
         rule: "LP actors attempt legal and illegal life-cycle transitions in random order under crash/duplicate/reorder faults: open (plain, metadata, token-extension, bundled) with valid ranges and with off-spacing / lower>=upper / out-of-bounds / non-full-range-on-full-range-only / one-sentinel / both-sentinel bounds, close empty and non-empty, reset (non-empty, same range, invalid range), lock (empty, twice, non-token-extension), decrease / close / reset / reposition on locked positions, increase and collect on locked positions, transfer-locked, open an occupied or out-of-range bundle index, close a free one, delete a non-empty bundle; a rule-based model evaluated on the pre-state of every landed instruction predicts what must be rejected, and after each accepted step the ledger must show: supply 1 / no mint authority / token with the owner, stored range = resolved range (sentinels: nearest usable tick on one side of the price), clean fresh position, checkpoints zero after reset, token account frozen iff locked, bitmap = set of open bundled positions; a case is one (instruction, model inputs, outcome) tuple",
-        quick_runs: 3000,
+        quick_runs: 6000,
         thorough_secs: 1200,
         assumptions: COMMON_ASSUMPTIONS,
         extra: None,
@@ -251,7 +251,7 @@ fn specs() -> Vec<CheckSpec> {
         mk: mk_c19,
         level: "exploration",
         rule: "an admin actor calls every initialiser and setter (fee rates, protocol fee rates, fee tiers incl. spacing 0, adaptive fee tiers and pool constants near every validity boundary, delegated-authority and preset-constant paths, config extension and badge authorities) with boundary-biased arbitrary arguments, and a pool creator offers fabricated mints (plain SPL; Token-2022 with 0-3 extensions drawn from all known type numbers, account-only types and unknown numbers; freeze authority or not; truncated TLV records; badge issued / lamports parked at the badge address / none) to initialize_pool, initialize_pool_v2, initialize_pool_with_adaptive_fee and initialize_reward_v2 with in- and out-of-bound prices and reversed mint order, interleaved with LPs and traders that push prices to the protocol bounds; after every landed transaction every program-owned Whirlpool, FeeTier, AdaptiveFeeTier, Oracle and Config account is checked against the bounds restated independently, and pool/reward creation must agree with an admission predicate written from the statement; a case is one (instruction, outcome, error code) or (instruction, mint description, outcome) tuple",
-        quick_runs: 4500,
+        quick_runs: 8000,
         thorough_secs: 1200,
         assumptions: COMMON_ASSUMPTIONS,
         extra: None,
@@ -263,7 +263,7 @@ fn specs() -> Vec<CheckSpec> {
         mk: mk_c04,
         level: "fault_enumeration",
         rule: "worlds with 2-3 pools (static and adaptive-fee), rewards, admin / creator / reward-authority / life-cycle LP / router actors, so that histories contain every privileged instruction kind; the Byzantine-client fault replays each successful privileged instruction on forks of its pre-state (where it is known to succeed as is) with one mutation: (a) the authority slot replaced by a fresh attacker key that signs, (b) the right key with the signer flag cleared (when it signs nowhere else), and for position / bundle authorities (c) the attacker as delegate of the position token account with delegated amount 0, 1, 2 (1 may succeed, 0 and 2 must not) and (d) the attacker as owner of an empty token account of the position mint; every mutation except delegate(1) must be rejected; the matrix is reported cell by cell (probes `cell: instruction / slot / mutation`); a case is one (instruction, slot, mutation) cell",
-        quick_runs: 2700,
+        quick_runs: 4500,
         thorough_secs: 1200,
         assumptions: COMMON_ASSUMPTIONS,
         extra: None,
@@ -275,7 +275,7 @@ fn specs() -> Vec<CheckSpec> {
         mk: mk_c15,
         level: "fault_enumeration",
         rule: "same worlds as C04; each successful fund-moving instruction (swap, swap_v2, two-hop x2, increase/decrease x4, by-token-amounts, reposition, collect fees / reward / protocol fees x6, update-fees, set-reward-emissions x2, initialise-reward x2) is replayed on forks of its pre-state with one account slot at a time substituted by a well-formed account of the same type that belongs elsewhere: another pool, a vault / token account / mint of another mint, another (non-vault) token account of the same mint in a vault slot, a tick array or position or oracle of another pool, another position of the same pool, another program (incl. the other token program), the same pool for both two-hop legs; slots where another account is legitimately acceptable (any token account of the right mint as source/destination, same-pool arrays in swaps, same-pool positions in update-fees) are excluded; every substitution must be rejected; the matrix is reported cell by cell; a case is one (instruction, slot, substitute kind) cell",
-        quick_runs: 2700,
+        quick_runs: 4000,
         thorough_secs: 1200,
         assumptions: COMMON_ASSUMPTIONS,
         extra: None,
@@ -287,7 +287,7 @@ fn specs() -> Vec<CheckSpec> {
         mk: mk_c20,
         level: "exploration",
         rule: "HIST (core, adaptive-fee and transfer-fee worlds) the Rust core SDK (rust-sdk/core from the working tree, built against an ethnum shim) is fed with facades built from the ledger at the pre-state of every landed swap / swap_v2 and increase / decrease (v1, v2): compute_swap with the transaction's own limit must succeed whenever the program did and give the same amounts in, out and total fee (static and adaptive pools); where the program refused with a quote-level error (zero amount, limit direction, limit out of bounds) the SDK must not produce a number; swap_quote_by_input/output_token (transfer fees included) and increase/decrease_liquidity_quote must equal the balances that moved, with slippage-adjusted min/max on the safe side; tick<->price conversions are compared on the values reached; a case is one (instruction, direction, mode, program outcome, SDK outcome, adaptive, complete arrays, limit) tuple",
-        quick_runs: 3000,
+        quick_runs: 5000,
         thorough_secs: 1200,
         assumptions: COMMON_ASSUMPTIONS,
         extra: None,
@@ -299,7 +299,7 @@ fn specs() -> Vec<CheckSpec> {
         mk: mk_c05,
         level: "exploration",
         rule: "HIST after every landed transaction the pool, position and tick-array bytes are decoded independently and compared; a case is one (instruction kind, #positions, #in-range, #bounded ticks, zero-liquidity, shifted-state, tick spacing, #dynamic arrays) tuple with at least one position in the pool",
-        quick_runs: 3000,
+        quick_runs: 6000,
         thorough_secs: 1200,
         assumptions: COMMON_ASSUMPTIONS,
         extra: None,
